@@ -10,6 +10,7 @@ import Driver.Plan
 import Driver.Batch
 import Driver.Middleware
 import Driver.Client
+import Driver.CliLts
 open Driver
 
 /-- the handler chain: add one line per driver module. -/
@@ -19,7 +20,8 @@ def handlers : List (String → String → Option String) := [
   handlePlan,
   handleBatch,
   handleMiddleware,
-  handleClient
+  handleClient,
+  handleCliLts
 ]
 
 def handle (line : String) : String :=
